@@ -319,6 +319,9 @@ func c04Run(bin, work string, c *c04Case, seed uint64, rep *kit.Report) (vs []c0
 			op.Result = "error: " + res.Err
 		}
 		if !srv.Alive() {
+			if srv.KilledFromOutside() {
+				return nil, fmt.Sprintf("op %d: the server was SIGKILLed from outside the check (no trace in its log)", oi)
+			}
 			viol("c04:server-died", fmt.Sprintf("op %d (%s %s): server died\n%s", oi, op.Op, op.Name, tail(srv.Crashed(), 1500)))
 			return vs, ""
 		}
